@@ -288,6 +288,17 @@ class VMNetwork(object):
             else:
                 netconfig = self.new_netconfig()
                 netconfig.from_interface(interface)
+                if netconfig.net_ip in self.netconfigs:
+                    raise IndexError(
+                        "Interface %s needs a new network %s/%s overlapping with the "
+                        "already registered %s"
+                        % (
+                            interface.ip,
+                            netconfig.net_ip,
+                            netconfig.mask_bit,
+                            self.netconfigs[netconfig.net_ip],
+                        )
+                    )
                 logging.debug(
                     "Adding interface {0} to a new {1}".format(interface, netconfig)
                 )
